@@ -1,271 +1,681 @@
 /-
-Lemmas for the chunk-cache model (C11).  Part A: the refcounted LRU.  Part B: the state invariant and its
-preservation by every step.  Part C: the `MemoryCache` model.
+Lemmas for the chunk-cache model (C11), part B2: every step preserves the invariant, hence every
+reachable state satisfies it.  Part C: the `MemoryCache` model.
 -/
-import SV.Model.ChunkCache
+import SV.Lemmas.ChunkCacheInv
 
 namespace SV.ChunkCache
 
-/-! ## Part A — refcounted LRU -/
+theorem LRU.Inv.congr {l : LRU} {h h' : Nat → Nat} (hi : l.Inv h) (he : ∀ i, h' i = h i) : l.Inv h' := by
+  have : h' = h := funext he
+  rw [this]; exact hi
 
-/-- The `OnEvicted` callback of a refCounter has not run yet. -/
-def RC.alive (r : RC) : Prop := 0 < r.refs
+theorem memHolders_append_reader (rs : List Reader) (ws : List Writer) (rd : Reader) (i : Nat) :
+    memHolders (rs ++ [rd]) ws i = memHolders rs ws i + (if rd.holdsMem i then 1 else 0) := by
+  simp only [memHolders, List.countP_append, List.countP_singleton]; omega
 
-instance (r : RC) : Decidable r.alive := by unfold RC.alive; infer_instance
+theorem memHolders_append_writer (rs : List Reader) (ws : List Writer) (wr : Writer) (i : Nat) :
+    memHolders rs (ws ++ [wr]) i = memHolders rs ws i + (if wr.holdsMem i then 1 else 0) := by
+  simp only [memHolders, List.countP_append, List.countP_singleton]; omega
 
-theorem find_some_mem {k i : Nat} : ∀ {o : List (Nat × Nat)}, find k o = some i → (k, i) ∈ o
-  | [], h => by simp [find] at h
-  | (k', i') :: rest, h => by
-    simp only [find] at h
-    split at h
-    · simp_all
-    · exact List.mem_cons_of_mem _ (find_some_mem h)
+theorem memHolders_set_reader {rs : List Reader} (ws : List Writer) {r : Nat} {rd : Reader} (rd' : Reader) (i : Nat)
+    (h : rs[r]? = some rd) :
+    memHolders (rs.set r rd') ws i + (if rd.holdsMem i then 1 else 0) =
+      memHolders rs ws i + (if rd'.holdsMem i then 1 else 0) := by
+  have := countP_set_get (p := Reader.holdsMem i) (y := rd') h
+  simp only [memHolders]; omega
 
-theorem popLast_eq {α : Type} : ∀ {l l' : List α} {z : α}, popLast l = some (l', z) → l = l' ++ [z]
-  | [], _, _, h => by simp [popLast] at h
-  | [x], _, _, h => by simp [popLast] at h; obtain ⟨rfl, rfl⟩ := h; rfl
-  | x :: y :: t, l', z, h => by
-    simp only [popLast] at h
-    split at h
-    · rename_i l0 z0 heq
-      simp at h
-      obtain ⟨rfl, rfl⟩ := h
-      have := popLast_eq heq
-      simp [this]
-    · simp at h
+theorem memHolders_set_writer (rs : List Reader) {ws : List Writer} {w : Nat} {wr : Writer} (wr' : Writer) (i : Nat)
+    (h : ws[w]? = some wr) :
+    memHolders rs (ws.set w wr') i + (if wr.holdsMem i then 1 else 0) =
+      memHolders rs ws i + (if wr'.holdsMem i then 1 else 0) := by
+  have := countP_set_get (p := Writer.holdsMem i) (y := wr') h
+  simp only [memHolders]; omega
 
-/-- `h i` = number of `done` closures of refCounter `i` that were handed out and not yet called. -/
-structure LRU.Inv (l : LRU) (h : Nat → Nat) : Prop where
-  refs : ∀ i r, l.rcs[i]? = some r → r.refs = (if r.fin then 0 else 1) + (h i : Int)
-  ord : ∀ e ∈ l.order, ∃ r, l.rcs[e.2]? = some r ∧ r.fin = false ∧ r.key = e.1
-  nodup : (l.order.map Prod.snd).Nodup
-  bound : ∀ j, l.rcs.length ≤ j → h j = 0
+theorem fdHolders_append (rs : List Reader) (rd : Reader) (i : Nat) :
+    fdHolders (rs ++ [rd]) i = fdHolders rs i + (if rd.holdsFd i then 1 else 0) := by
+  simp only [fdHolders, List.countP_append, List.countP_singleton]
 
-/-- What an LRU operation may do to the refCounters: keys and values never change, nothing comes back
-to life, and the only counter that dies is the one whose value was handed to `OnEvicted`. -/
-structure LRU.Eff (l l' : LRU) (fired : Option Nat) : Prop where
-  len : l.rcs.length ≤ l'.rcs.length
-  old : ∀ (j : Nat) (r : RC), l.rcs[j]? = some r → ∃ r' : RC, l'.rcs[j]? = some r' ∧ r'.key = r.key ∧ r'.val = r.val ∧
-          (r'.alive → r.alive) ∧ (r.alive → ¬ r'.alive → fired = some r.val)
-  fired_some : ∀ v, fired = some v →
-          ∃ (j : Nat) (r r' : RC), l.rcs[j]? = some r ∧ l'.rcs[j]? = some r' ∧ r.val = v ∧ r.alive ∧ ¬ r'.alive
-  cap : l'.cap = l.cap
+theorem fdHolders_set {rs : List Reader} {r : Nat} {rd : Reader} (rd' : Reader) (i : Nat)
+    (h : rs[r]? = some rd) :
+    fdHolders (rs.set r rd') i + (if rd.holdsFd i then 1 else 0) =
+      fdHolders rs i + (if rd'.holdsFd i then 1 else 0) := by
+  have := countP_set_get (p := Reader.holdsFd i) (y := rd') h
+  simp only [fdHolders]; omega
 
-theorem LRU.Eff.refl (l : LRU) : LRU.Eff l l none :=
-  ⟨Nat.le_refl _, fun j r h => ⟨r, h, rfl, rfl, (fun x => x), fun a b => absurd a b⟩, by simp, rfl⟩
+/-! ### generic preservation lemmas for the reader / writer tables -/
 
-theorem LRU.Inv.alive_of_not_fin {l : LRU} {h : Nat → Nat} (hi : l.Inv h) {i : Nat} {r : RC}
-    (hr : l.rcs[i]? = some r) (hf : r.fin = false) : r.alive := by
-  have := hi.refs i r hr
-  simp [hf] at this
-  unfold RC.alive; omega
-
-theorem LRU.Inv.alive_of_held {l : LRU} {h : Nat → Nat} (hi : l.Inv h) {i : Nat} {r : RC}
-    (hr : l.rcs[i]? = some r) (hh : 1 ≤ h i) : r.alive := by
-  have := hi.refs i r hr
-  unfold RC.alive
-  split at this <;> omega
-
-theorem LRU.Inv.lt_of_held {l : LRU} {h : Nat → Nat} (hi : l.Inv h) {i : Nat}
-    (hh : 1 ≤ h i) : i < l.rcs.length := by
-  false_or_by_contra
-  have := hi.bound i (by omega)
+theorem memHolders_set_writer_same {rs : List Reader} {ws : List Writer} {w : Nat} {wr wr' : Writer}
+    (hw : ws[w]? = some wr) (h : ∀ i, wr'.holdsMem i = wr.holdsMem i) (i : Nat) :
+    memHolders rs (ws.set w wr') i = memHolders rs ws i := by
+  have := memHolders_set_writer rs wr' i hw
+  rw [h i] at this
   omega
 
-/-! ### touch / find -/
+theorem memHolders_set_reader_same {rs : List Reader} {ws : List Writer} {r : Nat} {rd rd' : Reader}
+    (hr : rs[r]? = some rd) (h : ∀ i, rd'.holdsMem i = rd.holdsMem i) (i : Nat) :
+    memHolders (rs.set r rd') ws i = memHolders rs ws i := by
+  have := memHolders_set_reader ws rd' i hr
+  rw [h i] at this
+  omega
 
-theorem touch_mem {o : List (Nat × Nat)} {k i : Nat} (hm : (k, i) ∈ o) :
-    ∀ e, e ∈ touch o k i → e ∈ o := by
-  intro e he
-  simp only [touch, List.mem_cons, List.mem_filter] at he
-  rcases he with rfl | ⟨h, _⟩
-  · exact hm
-  · exact h
+theorem fdHolders_set_same {rs : List Reader} {r : Nat} {rd rd' : Reader}
+    (hr : rs[r]? = some rd) (h : ∀ i, rd'.holdsFd i = rd.holdsFd i) (i : Nat) :
+    fdHolders (rs.set r rd') i = fdHolders rs i := by
+  have := fdHolders_set rd' i hr
+  rw [h i] at this
+  omega
 
-theorem touch_nodup {o : List (Nat × Nat)} {k i : Nat} (hn : (o.map Prod.snd).Nodup) :
-    ((touch o k i).map Prod.snd).Nodup := by
-  simp only [touch, List.map_cons, List.nodup_cons]
-  constructor
-  · intro hmem
-    simp only [List.mem_map, List.mem_filter] at hmem
-    obtain ⟨e, ⟨_, hne⟩, rfl⟩ := hmem
-    simp at hne
-  · exact List.Nodup.sublist (List.Sublist.map _ List.filter_sublist) hn
+theorem CommInv.set {cm : Nat → List Bytes} {ws : List Writer} {w : Nat} {wr wr' : Writer}
+    (h : CommInv cm ws) (hw : ws[w]? = some wr)
+    (hk : wr.phase ≠ .opened → wr.phase ≠ .aborted →
+      wr'.key = wr.key ∧ wr'.written = wr.written ∧ wr'.phase ≠ .opened ∧ wr'.phase ≠ .aborted) :
+    CommInv cm (ws.set w wr') := by
+  refine h.frame (fun w0 wr0 hw0 h1 h2 => ?_)
+  by_cases hc : w0 = w
+  · subst hc
+    rw [hw] at hw0; simp at hw0; subst hw0
+    obtain ⟨g1, g2, g3, g4⟩ := hk h1 h2
+    exact ⟨wr', set_get_self (lt_of_get_some hw), g1, g2, g3, g4⟩
+  · exact ⟨wr0, by rw [set_get_ne hc]; exact hw0, rfl, rfl, h1, h2⟩
 
-/-! ### inc (inside Get / Add of an existing key) -/
+theorem WrInv.set {ws : List Writer} {bufs bufs' : List Buf} {inodes inodes' : List Inode} {rcs rcs' : List RC}
+    {cm cm' : Nat → List Bytes} {w : Nat} {wr' : Writer}
+    (h : WrInv ws bufs inodes rcs cm)
+    (hself : WrOk bufs' inodes' rcs' cm' w wr')
+    (hb : ∀ w', w' ≠ w → ∀ (b : Nat) (bf : Buf), bufs[b]? = some bf → bf.owner = .writer w' → bufs'[b]? = some bf)
+    (hi : ∀ w', w' ≠ w → ∀ (i : Nat) (ino : Inode), inodes[i]? = some ino → ino.st = .wip w' →
+      inodes'[i]? = some ino)
+    (hr : ∀ (i : Nat) (r : RC), rcs[i]? = some r → ∃ r' : RC, rcs'[i]? = some r' ∧ r'.key = r.key)
+    (hle : CmLe cm cm') : WrInv (ws.set w wr') bufs' inodes' rcs' cm' := by
+  intro w0 wr0 hw0
+  rw [set_some_iff] at hw0
+  rcases hw0 with ⟨rfl, _, rfl⟩ | ⟨hne, hw0⟩
+  · exact hself
+  · exact (h w0 wr0 hw0).frame (hb w0 hne) (hi w0 hne) hr hle
 
-theorem LRU.get_spec {l l' : LRU} {h h' : Nat → Nat} {k i : Nat} (hi : l.Inv h)
-    (hg : l.get k = some (l', i))
-    (hh : ∀ j, h' j = if j = i then h j + 1 else h j) :
-    l'.Inv h' ∧ l.Eff l' none ∧ l'.rcs.length = l.rcs.length ∧
-      ∃ r r' : RC, l.rcs[i]? = some r ∧ l'.rcs[i]? = some r' ∧ r.key = k ∧ r.alive ∧ r'.alive ∧
-        r'.val = r.val ∧ r'.key = r.key ∧ find k l.order = some i := by
-  unfold LRU.get at hg
-  split at hg
-  · rename_i i0 hf
-    simp only [Option.some.injEq, Prod.mk.injEq] at hg
-    obtain ⟨rfl, rfl⟩ := hg
-    have hm := find_some_mem hf
-    obtain ⟨r, hr, hfin, hkey⟩ := hi.ord _ hm
-    simp only at hr hkey
-    have halive := hi.alive_of_not_fin hr hfin
-    have hlt : i0 < l.rcs.length := by
-      have := (List.getElem?_eq_some_iff.mp hr).1; exact this
-    simp only [LRU.inc, hr]
-    refine ⟨⟨?_, ?_, ?_, ?_⟩, ⟨?_, ?_, ?_, rfl⟩, by simp, ?_⟩
-    · intro j rj hj
-      simp only [List.getElem?_set] at hj
-      have := hh j
-      split at hj
-      · rename_i heq; subst heq
-        simp [hlt] at hj; subst hj
-        have := hi.refs _ r hr
-        simp_all; omega
-      · have h2 := hi.refs j rj hj
-        rw [h2]; simp_all; omega
-    · intro e he
-      have he' := touch_mem hm e he
-      obtain ⟨re, hre, hf1, hk1⟩ := hi.ord e he'
-      by_cases hc : e.2 = i0
-      · refine ⟨{ r with refs := r.refs + 1 }, ?_, ?_, ?_⟩
-        · simp [List.getElem?_set, hc, hlt]
-        · exact hfin
-        · rw [hc, hr] at hre; simp at hre; subst hre; exact hk1
-      · refine ⟨re, ?_, hf1, hk1⟩
-        simp only [List.getElem?_set]
-        rw [if_neg (fun h => hc h.symm)]; exact hre
-    · exact touch_nodup hi.nodup
-    · intro j hj
-      simp only [List.length_set] at hj
-      have := hi.bound j hj
-      have := hh j
-      have : j ≠ i0 := by omega
-      simp_all
-    · simp
-    · intro j rj hj
-      by_cases hc : j = i0
-      · subst hc
-        rw [hr] at hj; simp at hj; subst hj
-        refine ⟨{ r with refs := r.refs + 1 }, by simp [List.getElem?_set, hlt], rfl, rfl, ?_, ?_⟩
-        · intro _; exact halive
-        · intro _ hn; exfalso; apply hn; unfold RC.alive at *; simp; omega
-      · refine ⟨rj, ?_, rfl, rfl, (fun x => x), fun a b => absurd a b⟩
-        simp only [List.getElem?_set]
-        rw [if_neg (fun h => hc h.symm)]; exact hj
-    · intro v hv; simp at hv
-    · refine ⟨r, { r with refs := r.refs + 1 }, hr, by simp [List.getElem?_set, hlt], hkey, halive, ?_, rfl, rfl, hf⟩
-      unfold RC.alive at *; simp; omega
-  · simp at hg
+theorem WrInv.frame {ws : List Writer} {bufs bufs' : List Buf} {inodes inodes' : List Inode} {rcs rcs' : List RC}
+    {cm cm' : Nat → List Bytes}
+    (h : WrInv ws bufs inodes rcs cm)
+    (hb : ∀ w', ∀ (b : Nat) (bf : Buf), bufs[b]? = some bf → bf.owner = .writer w' → bufs'[b]? = some bf)
+    (hi : ∀ w', ∀ (i : Nat) (ino : Inode), inodes[i]? = some ino → ino.st = .wip w' → inodes'[i]? = some ino)
+    (hr : ∀ (i : Nat) (r : RC), rcs[i]? = some r → ∃ r' : RC, rcs'[i]? = some r' ∧ r'.key = r.key)
+    (hle : CmLe cm cm') : WrInv ws bufs' inodes' rcs' cm' :=
+  fun w0 wr0 hw0 => (h w0 wr0 hw0).frame (hb w0) (hi w0) hr hle
 
-/-! ### dec (a `done` closure) -/
+theorem RdInv.set {rs : List Reader} {mrcs mrcs' frcs frcs' : List RC} {files files' : List FileObj}
+    {r : Nat} {rd' : Reader}
+    (h : RdInv rs mrcs frcs files)
+    (hself : RdOk mrcs' frcs' files' r rd')
+    (hm : ∀ (i : Nat) (x : RC), mrcs[i]? = some x → ∃ x' : RC, mrcs'[i]? = some x' ∧ x'.key = x.key ∧ x'.val = x.val)
+    (hf : ∀ (i : Nat) (x : RC), frcs[i]? = some x → ∃ x' : RC, frcs'[i]? = some x' ∧ x'.key = x.key ∧ x'.val = x.val)
+    (hfo : ∀ r', r' ≠ r → ∀ (f : Nat) (fo : FileObj), files[f]? = some fo → fo.owner = .reader r' →
+      files'[f]? = some fo) : RdInv (rs.set r rd') mrcs' frcs' files' := by
+  intro r0 rd0 hr0
+  rw [set_some_iff] at hr0
+  rcases hr0 with ⟨rfl, _, rfl⟩ | ⟨hne, hr0⟩
+  · exact hself
+  · exact (h r0 rd0 hr0).frame hm hf (hfo r0 hne)
 
-theorem LRU.dec_spec {l : LRU} {h h' : Nat → Nat} {i : Nat} (hi : l.Inv h)
-    (hheld : 1 ≤ h i)
-    (hh : ∀ j, h' j + (if j = i then 1 else 0) = h j) :
-    (l.dec i).1.Inv h' ∧ l.Eff (l.dec i).1 (l.dec i).2 ∧ (l.dec i).1.rcs.length = l.rcs.length ∧
-      (l.dec i).1.order = l.order := by
-  have hlt := hi.lt_of_held hheld
-  obtain ⟨r, hr⟩ : ∃ r, l.rcs[i]? = some r := ⟨l.rcs[i], by simp [hlt]⟩
-  have halive := hi.alive_of_held hr hheld
-  have hrefs := hi.refs i r hr
-  simp only [LRU.dec, hr]
-  refine ⟨⟨?_, ?_, hi.nodup, ?_⟩, ⟨by simp, ?_, ?_, rfl⟩, by simp, rfl⟩
-  · intro j rj hj
-    simp only [List.getElem?_set] at hj
-    have := hh j
-    split at hj
-    · rename_i heq; subst heq
-      simp [hlt] at hj; subst hj
-      simp_all; omega
-    · have h2 := hi.refs j rj hj
-      rw [h2]; simp_all
-  · intro e he
-    obtain ⟨re, hre, hf1, hk1⟩ := hi.ord e he
-    by_cases hc : e.2 = i
-    · refine ⟨{ r with refs := r.refs - 1 }, by simp [List.getElem?_set, hc, hlt], ?_, ?_⟩
-      · rw [hc, hr] at hre; simp at hre; subst hre; exact hf1
-      · rw [hc, hr] at hre; simp at hre; subst hre; exact hk1
-    · refine ⟨re, ?_, hf1, hk1⟩
-      simp only [List.getElem?_set]
-      rw [if_neg (fun h => hc h.symm)]; exact hre
-  · intro j hj
-    simp only [List.length_set] at hj
-    have := hi.bound j hj
-    have := hh j
-    omega
-  · intro j rj hj
-    by_cases hc : j = i
-    · subst hc
-      rw [hr] at hj; simp at hj; subst hj
-      refine ⟨{ r with refs := r.refs - 1 }, by simp [List.getElem?_set, hlt], rfl, rfl, ?_, ?_⟩
-      · intro _; exact halive
-      · intro _ hn
-        unfold RC.alive at hn; simp at hn
-        simp [hn]
-    · refine ⟨rj, ?_, rfl, rfl, (fun x => x), fun a b => absurd a b⟩
-      simp only [List.getElem?_set]
-      rw [if_neg (fun h => hc h.symm)]; exact hj
-  · intro v hv
-    split at hv
-    · rename_i hle
-      simp at hv; subst hv
-      refine ⟨i, r, { r with refs := r.refs - 1 }, hr, by simp [List.getElem?_set, hlt], rfl, halive, ?_⟩
-      unfold RC.alive; simp; omega
-    · simp at hv
+theorem RdInv.frame {rs : List Reader} {mrcs mrcs' frcs frcs' : List RC} {files files' : List FileObj}
+    (h : RdInv rs mrcs frcs files)
+    (hm : ∀ (i : Nat) (x : RC), mrcs[i]? = some x → ∃ x' : RC, mrcs'[i]? = some x' ∧ x'.key = x.key ∧ x'.val = x.val)
+    (hf : ∀ (i : Nat) (x : RC), frcs[i]? = some x → ∃ x' : RC, frcs'[i]? = some x' ∧ x'.key = x.key ∧ x'.val = x.val)
+    (hfo : ∀ r', ∀ (f : Nat) (fo : FileObj), files[f]? = some fo → fo.owner = .reader r' →
+      files'[f]? = some fo) : RdInv rs mrcs' frcs' files' :=
+  fun r0 rd0 hr0 => (h r0 rd0 hr0).frame hm hf (hfo r0)
 
-/-! ### finalize (capacity eviction) -/
+theorem RdInv.append {rs : List Reader} {mrcs mrcs' frcs frcs' : List RC} {files files' : List FileObj}
+    {rd' : Reader}
+    (h : RdInv rs mrcs frcs files)
+    (hself : RdOk mrcs' frcs' files' rs.length rd')
+    (hm : ∀ (i : Nat) (x : RC), mrcs[i]? = some x → ∃ x' : RC, mrcs'[i]? = some x' ∧ x'.key = x.key ∧ x'.val = x.val)
+    (hf : ∀ (i : Nat) (x : RC), frcs[i]? = some x → ∃ x' : RC, frcs'[i]? = some x' ∧ x'.key = x.key ∧ x'.val = x.val)
+    (hfo : ∀ r', r' ≠ rs.length → ∀ (f : Nat) (fo : FileObj), files[f]? = some fo → fo.owner = .reader r' →
+      files'[f]? = some fo) : RdInv (rs ++ [rd']) mrcs' frcs' files' := by
+  intro r0 rd0 hr0
+  rw [append_some_iff] at hr0
+  rcases hr0 with hr0 | ⟨rfl, rfl⟩
+  · exact (h r0 rd0 hr0).frame hm hf (hfo r0 (by have := lt_of_get_some hr0; omega))
+  · exact hself
 
-theorem LRU.finalize_spec {l : LRU} {h : Nat → Nat} {i : Nat}
-    (hrefs : ∀ i r, l.rcs[i]? = some r → r.refs = (if r.fin then 0 else 1) + (h i : Int))
-    (hbound : ∀ j, l.rcs.length ≤ j → h j = 0) :
-    (∀ j r, (l.finalize i).1.rcs[j]? = some r → r.refs = (if r.fin then 0 else 1) + (h j : Int)) ∧
-    (∀ j, (l.finalize i).1.rcs.length ≤ j → h j = 0) ∧
-    l.Eff (l.finalize i).1 (l.finalize i).2 ∧ (l.finalize i).1.rcs.length = l.rcs.length ∧
-    (l.finalize i).1.order = l.order ∧
-    (∀ j r, j ≠ i → l.rcs[j]? = some r → (l.finalize i).1.rcs[j]? = some r) := by
-  unfold LRU.finalize
-  split
-  · rename_i r hr
-    have hlt : i < l.rcs.length := (List.getElem?_eq_some_iff.mp hr).1
-    have hr0 := hrefs i r hr
-    split
-    · rename_i hfin
-      exact ⟨hrefs, hbound, LRU.Eff.refl l, rfl, rfl, fun _ _ _ h => h⟩
-    · rename_i hfin
-      simp only [Bool.not_eq_true] at hfin
-      have halive : r.alive := by unfold RC.alive; simp [hfin] at hr0; omega
-      refine ⟨?_, ?_, ⟨by simp, ?_, ?_, rfl⟩, by simp, rfl, ?_⟩
-      · intro j rj hj
-        simp only [List.getElem?_set] at hj
-        split at hj
-        · rename_i heq; subst heq
-          simp [hlt] at hj; subst hj
-          simp [hfin] at hr0 ⊢; omega
-        · exact hrefs j rj hj
-      · intro j hj
-        simp only [List.length_set] at hj
-        exact hbound j hj
-      · intro j rj hj
-        by_cases hc : j = i
-        · subst hc
-          rw [hr] at hj; simp at hj; subst hj
-          refine ⟨{ r with refs := r.refs - 1, fin := true }, by simp [List.getElem?_set, hlt], rfl, rfl, ?_, ?_⟩
-          · intro _; exact halive
-          · intro _ hn
-            unfold RC.alive at hn; simp at hn
-            simp [hn]
-        · refine ⟨rj, ?_, rfl, rfl, (fun x => x), fun a b => absurd a b⟩
-          simp only [List.getElem?_set]
-          rw [if_neg (fun h => hc h.symm)]; exact hj
-      · intro v hv
-        split at hv
-        · simp at hv; subst hv
-          refine ⟨i, r, { r with refs := r.refs - 1, fin := true }, hr, by simp [List.getElem?_set, hlt], rfl, halive, ?_⟩
-          unfold RC.alive; simp; omega
-        · simp at hv
-      · intro j rj hne hj
-        simp only [List.getElem?_set]
-        rw [if_neg (fun h => hne h.symm)]; exact hj
-  · exact ⟨hrefs, hbound, LRU.Eff.refl l, rfl, rfl, fun _ _ _ h => h⟩
+/-- objects of other writers survive a change to a buffer this writer (or nobody) owns. -/
+theorem bufs_set_frame {bufs : List Buf} {b0 : Nat} {bf0 : Buf} (x : Buf) (h0 : bufs[b0]? = some bf0)
+    {w' : Nat} (hne : bf0.owner ≠ .writer w') :
+    ∀ (b : Nat) (bf : Buf), bufs[b]? = some bf → bf.owner = .writer w' → (bufs.set b0 x)[b]? = some bf := by
+  intro b bf hb ho
+  have : b ≠ b0 := by
+    intro hc; subst hc
+    rw [h0] at hb; simp at hb; subst hb
+    exact hne ho
+  rw [set_get_ne this]; exact hb
+
+theorem inodes_set_frame {inodes : List Inode} {i0 : Nat} {ino0 : Inode} (x : Inode) (h0 : inodes[i0]? = some ino0)
+    {w' : Nat} (hne : ino0.st ≠ .wip w') :
+    ∀ (i : Nat) (ino : Inode), inodes[i]? = some ino → ino.st = .wip w' → (inodes.set i0 x)[i]? = some ino := by
+  intro i ino hi ho
+  have : i ≠ i0 := by
+    intro hc; subst hc
+    rw [h0] at hi; simp at hi; subst hi
+    exact hne ho
+  rw [set_get_ne this]; exact hi
+
+theorem files_set_frame {files : List FileObj} {f0 : Nat} {fo0 : FileObj} (x : FileObj) (h0 : files[f0]? = some fo0)
+    {r' : Nat} (hne : fo0.owner ≠ .reader r') :
+    ∀ (f : Nat) (fo : FileObj), files[f]? = some fo → fo.owner = .reader r' → (files.set f0 x)[f]? = some fo := by
+  intro f fo hf ho
+  have : f ≠ f0 := by
+    intro hc; subst hc
+    rw [h0] at hf; simp at hf; subst hf
+    exact hne ho
+  rw [set_get_ne this]; exact hf
+
+/-- the buffer handed to `OnEvicted` is owned by a refCounter, not by a writer. -/
+theorem evictBuf_frame {l l' : LRU} {fired : Option Nat} {bufs : List Buf} {cm : Nat → List Bytes}
+    (hb : BufInv l.rcs bufs cm) (he : l.Eff l' fired) (w' : Nat) :
+    ∀ (b : Nat) (bf : Buf), bufs[b]? = some bf → bf.owner = .writer w' → (evictBuf bufs fired)[b]? = some bf := by
+  intro b bf hbf ho
+  cases hf : fired with
+  | none => exact hbf
+  | some v =>
+    obtain ⟨j, rj, _, hj, _, hval, haj, _⟩ := he.fired_some v hf
+    obtain ⟨bfj, g1, g2, _⟩ := hb j rj hj haj
+    have : b ≠ v := by
+      intro hc; subst hc
+      rw [hval, hbf] at g1; simp at g1; subst g1
+      rw [ho] at g2; cases g2
+    simp only [evictBuf]; rw [set_get_ne this]; exact hbf
+
+theorem evictFile_frame {l l' : LRU} {fired : Option Nat} {files : List FileObj}
+    (hb : FileInv l.rcs files) (he : l.Eff l' fired) (r' : Nat) :
+    ∀ (f : Nat) (fo : FileObj), files[f]? = some fo → fo.owner = .reader r' →
+      (evictFile files fired)[f]? = some fo := by
+  intro f fo hfo ho
+  cases hf : fired with
+  | none => exact hfo
+  | some v =>
+    obtain ⟨j, rj, _, hj, _, hval, haj, _⟩ := he.fired_some v hf
+    obtain ⟨foj, g1, g2, _⟩ := hb j rj hj haj
+    have : f ≠ v := by
+      intro hc; subst hc
+      rw [hval, hfo] at g1; simp at g1; subst g1
+      rw [ho] at g2; cases g2
+    rw [evictFile_get_ne this]; exact hfo
+
+/-! ### addOpen -/
+
+theorem Inv.addOpen {s s' : State} {k : Nat} {o : Opts} {reuse : Option Nat} (hi : Inv s)
+    (h : s.addOpen k o reuse = some s') : Inv s' := by
+  unfold State.addOpen at h
+  simp only at h
+  have hInoAppend : ∀ (w : Nat) (i : Nat) (ino : Inode), s.inodes[i]? = some ino → ino.st = .wip w →
+      (s.inodes ++ [{ data := [], st := .wip s.writers.length }])[i]? = some ino :=
+    fun _ _ _ h _ => append_get_old h
+  have hcomm : ∀ (x : Writer), CommInv s.committed (s.writers ++ [x]) :=
+    fun x => hi.comm.frame (fun w wr hw h1 h2 => ⟨wr, append_get_old hw, rfl, rfl, h1, h2⟩)
+  have hmem : ∀ (x : Writer), x.phase = .opened →
+      s.mem.Inv (memHolders s.readers (s.writers ++ [x])) := by
+    intro x hx
+    refine hi.mem.congr (fun i => ?_)
+    rw [memHolders_append_writer]
+    simp [Writer.holdsMem, hx]
+  have hwip : ∀ (x : Writer), x.wip = s.inodes.length →
+      WipOk (s.inodes ++ [{ data := [], st := .wip s.writers.length }]) s.writers.length x (· = []) :=
+    fun x hx => ⟨_, by rw [hx]; exact append_get_new, rfl, rfl⟩
+  have hfi := hi.fileIno.of_same (inodes' := s.inodes ++ [{ data := [], st := .wip s.writers.length }])
+    (fun f fo h => Or.inl ⟨fo, h, rfl, rfl⟩) (pub_append _)
+  split at h
+  · simp only [Option.some.injEq] at h; subst h
+    refine ⟨hi.pool, hmem _ rfl, hi.fd, hi.buf, hi.file, hfi,
+      hi.inoComm.append_wip _ _, hi.diskIno.of_pub (pub_append _), ?_, hi.rd, hcomm _⟩
+    intro w wr hw
+    rw [append_some_iff] at hw
+    rcases hw with hw | ⟨rfl, rfl⟩
+    · exact (hi.wr w wr hw).frame (fun _ _ h _ => h) (hInoAppend w) rcs_same (CmLe.refl _)
+    · simp only [WrOk, if_true]
+      exact hwip _ rfl
+  · split at h
+    · simp only [Option.some.injEq] at h; subst h
+      refine ⟨hi.pool.append (fun hc => by cases hc), hmem _ rfl, hi.fd, hi.buf.append _, hi.file, hfi,
+        hi.inoComm.append_wip _ _, hi.diskIno.of_pub (pub_append _), ?_, hi.rd, hcomm _⟩
+      intro w wr hw
+      rw [append_some_iff] at hw
+      rcases hw with hw | ⟨rfl, rfl⟩
+      · exact (hi.wr w wr hw).frame (fun _ _ h _ => append_get_old h) (hInoAppend w) rcs_same (CmLe.refl _)
+      · simp only [WrOk]
+        exact ⟨⟨_, append_get_new, rfl, rfl⟩, hwip _ rfl⟩
+    · rename_i b
+      split at h
+      · rename_i bf hb
+        split at h
+        · rename_i hown
+          simp only [Option.some.injEq] at h; subst h
+          refine ⟨hi.pool.set b (fun hc => by cases hc), hmem _ rfl, hi.fd,
+            hi.buf.set_noncached hb (by rw [hown]; intro i hc; cases hc) _, hi.file, hfi,
+            hi.inoComm.append_wip _ _, hi.diskIno.of_pub (pub_append _), ?_, hi.rd, hcomm _⟩
+          intro w wr hw
+          rw [append_some_iff] at hw
+          rcases hw with hw | ⟨rfl, rfl⟩
+          · refine (hi.wr w wr hw).frame ?_ (hInoAppend w) rcs_same (CmLe.refl _)
+            intro b' bf' hb' ho'
+            have : b' ≠ b := by
+              intro hc; subst hc
+              rw [hb] at hb'; simp at hb'; subst hb'
+              rw [hown] at ho'; cases ho'
+            rw [set_get_ne this]; exact hb'
+          · simp only [WrOk]
+            exact ⟨⟨_, set_get_self (lt_of_get_some hb), rfl, hi.pool b bf hb hown⟩, hwip _ rfl⟩
+        · simp at h
+      · simp at h
+
+/-! ### write -/
+
+theorem Inv.write {s s' : State} {w : Nat} {p : Bytes} (hi : Inv s) (h : s.write w p = some s') : Inv s' := by
+  unfold State.write at h
+  split at h
+  · rename_i wr hw
+    split at h
+    · rename_i hph
+      obtain ⟨hopen, _⟩ := hph
+      have hok := hi.wr w wr hw
+      simp only [WrOk, hopen] at hok
+      have hmem : s.mem.Inv (memHolders s.readers (s.writers.set w { wr with written := wr.written ++ p })) := by
+        refine hi.mem.congr (fun i => ?_)
+        have := memHolders_set_writer s.readers { wr with written := wr.written ++ p } i hw
+        have h1 : Writer.holdsMem i wr = false := by simp [Writer.holdsMem, hopen]
+        have h2 : Writer.holdsMem i { wr with written := wr.written ++ p } = false := by
+          simp [Writer.holdsMem, hopen]
+        rw [h1, h2] at this
+        simpa using this
+      have hcomm : CommInv s.committed (s.writers.set w { wr with written := wr.written ++ p }) := by
+        refine hi.comm.frame (fun w' wr' hw' h1 h2 => ?_)
+        by_cases hc : w' = w
+        · subst hc; rw [hw] at hw'; simp at hw'; subst hw'; exact absurd hopen h1
+        · exact ⟨wr', by rw [set_get_ne hc]; exact hw', rfl, rfl, h1, h2⟩
+      simp only at h
+      split at h
+      · rename_i hd
+        simp only [hd, if_true] at hok
+        obtain ⟨ino0, hino0, hst0, hdata0⟩ := hok
+        split at h
+        · rename_i ino hino
+          rw [hino0] at hino; simp at hino; subst hino
+          simp only [Option.some.injEq] at h; subst h
+          refine ⟨hi.pool, hmem, hi.fd, hi.buf, hi.file,
+            hi.fileIno.of_same (fun f fo h => Or.inl ⟨fo, h, rfl, rfl⟩) (pub_set_wip hino0 hst0),
+            hi.inoComm.set_wip hino0 hst0 (fun k hk => by simp [hst0] at hk),
+            hi.diskIno.of_pub (pub_set_wip hino0 hst0), ?_, hi.rd, hcomm⟩
+          intro w' wr' hw'
+          rw [set_some_iff] at hw'
+          rcases hw' with ⟨rfl, _, rfl⟩ | ⟨hne, hw'⟩
+          · simp only [WrOk, hopen, hd, if_true]
+            exact ⟨_, set_get_self (lt_of_get_some hino0), hst0, by simp [hdata0]⟩
+          · refine (hi.wr w' wr' hw').frame (fun _ _ h _ => h) ?_ rcs_same (CmLe.refl _)
+            intro i ino hi' hst'
+            have : i ≠ wr.wip := by
+              intro hc; subst hc
+              rw [hino0] at hi'; simp at hi'; subst hi'
+              rw [hst0] at hst'; simp at hst'; exact hne hst'.symm
+            rw [set_get_ne this]; exact hi'
+        · simp at h
+      · rename_i hd
+        simp only [hd] at hok
+        obtain ⟨⟨bf0, hbf0, hown0, hdata0⟩, hwip0⟩ := hok
+        split at h
+        · rename_i bf hbf
+          rw [hbf0] at hbf; simp at hbf; subst hbf
+          simp only [Option.some.injEq] at h; subst h
+          refine ⟨hi.pool.set _ (fun hc => by simp [hown0] at hc), hmem, hi.fd,
+            hi.buf.set_noncached hbf0 (by rw [hown0]; intro i hc; cases hc) _, hi.file,
+            hi.fileIno, hi.inoComm, hi.diskIno, ?_, hi.rd, hcomm⟩
+          intro w' wr' hw'
+          rw [set_some_iff] at hw'
+          rcases hw' with ⟨rfl, _, rfl⟩ | ⟨hne, hw'⟩
+          · simp only [WrOk, hopen, hd]
+            exact ⟨⟨_, set_get_self (lt_of_get_some hbf0), hown0, by simp [hdata0]⟩, hwip0⟩
+          · refine (hi.wr w' wr' hw').frame ?_ (fun _ _ h _ => h) rcs_same (CmLe.refl _)
+            intro b bf' hb' ho'
+            have : b ≠ wr.buf := by
+              intro hc; subst hc
+              rw [hbf0] at hb'; simp at hb'; subst hb'
+              rw [hown0] at ho'; simp at ho'; exact hne ho'.symm
+            rw [set_get_ne this]; exact hb'
+        · simp at h
+    · simp at h
+  · simp at h
+
+/-! ### abort / closeWriter / read -/
+
+theorem Inv.abort {s s' : State} {w : Nat} (hi : Inv s) (h : s.abort w = some s') : Inv s' := by
+  unfold State.abort at h
+  split at h
+  · rename_i wr hw
+    split at h
+    · rename_i hopen
+      have hok := hi.wr w wr hw
+      simp only [WrOk, hopen] at hok
+      have hmem : s.mem.Inv (memHolders s.readers (setWPhase s.writers w wr .aborted)) :=
+        hi.mem.congr (memHolders_set_writer_same hw (fun i => by simp [Writer.holdsMem, hopen]))
+      have hcomm : CommInv s.committed (setWPhase s.writers w wr .aborted) :=
+        hi.comm.set hw (fun h1 _ => absurd hopen h1)
+      split at h
+      · rename_i hd
+        simp only [hd, if_true] at hok
+        simp only [Option.some.injEq] at h; subst h
+        refine ⟨hi.pool, hmem, hi.fd, hi.buf, hi.file, hi.fileIno, hi.inoComm, hi.diskIno, ?_, hi.rd, hcomm⟩
+        refine hi.wr.set ?_ (fun _ _ _ _ h _ => h) (fun _ _ _ _ h _ => h) rcs_same (CmLe.refl _)
+        simp only [WrOk]
+        exact hok.imp (fun _ _ => trivial)
+      · rename_i hd
+        simp only [hd] at hok
+        obtain ⟨⟨bf0, hbf0, hown0, _⟩, hwip0⟩ := hok
+        simp only [Option.some.injEq] at h; subst h
+        refine ⟨hi.pool.set _ (fun _ => rfl), hmem, hi.fd,
+          hi.buf.set_noncached hbf0 (by rw [hown0]; intro i hc; cases hc) _, hi.file, hi.fileIno, hi.inoComm,
+          hi.diskIno, ?_, hi.rd, hcomm⟩
+        refine hi.wr.set ?_ (fun w' hne => bufs_set_frame _ hbf0 (by rw [hown0]; intro hc; cases hc; exact hne rfl))
+          (fun _ _ _ _ h _ => h) rcs_same (CmLe.refl _)
+        simp only [WrOk]
+        exact hwip0.imp (fun _ _ => trivial)
+    · simp at h
+  · simp at h
+
+theorem WrOk.closed {bufs : List Buf} {inodes : List Inode} {rcs : List RC} {cm : Nat → List Bytes} {w : Nat}
+    {wr : Writer} (h : WrOk bufs inodes rcs cm w wr) : WrOk bufs inodes rcs cm w { wr with closed := true } := h
+
+theorem Inv.closeWriter {s s' : State} {w : Nat} (hi : Inv s) (h : s.closeWriter w = some s') : Inv s' := by
+  unfold State.closeWriter at h
+  split at h
+  · rename_i wr hw
+    simp only [Option.some.injEq] at h; subst h
+    refine ⟨hi.pool, hi.mem.congr (memHolders_set_writer_same hw (fun i => rfl)), hi.fd, hi.buf, hi.file,
+      hi.fileIno, hi.inoComm, hi.diskIno, ?_, hi.rd, hi.comm.set hw (fun h1 h2 => ⟨rfl, rfl, h1, h2⟩)⟩
+    exact hi.wr.set (hi.wr w wr hw).closed (fun _ _ _ _ h _ => h) (fun _ _ _ _ h _ => h) rcs_same (CmLe.refl _)
+  · simp at h
+
+theorem Inv.read {s s' : State} {r : Nat} (hi : Inv s) (h : s.read r = some s') : Inv s' := by
+  unfold State.read at h
+  split at h
+  · split at h
+    · simp at h; subst h; exact hi
+    · simp at h
+  · simp at h
+
+/-! ### getOpen -/
+
+theorem Inv.getOpen {s s' : State} {k : Nat} {o : Opts} (hi : Inv s) (h : s.getOpen k o = some s') : Inv s' := by
+  unfold State.getOpen at h
+  split at h
+  · rename_i i hd
+    simp only [Option.some.injEq] at h; subst h
+    obtain ⟨ino, hino, hst⟩ := hi.diskIno k i hd
+    refine ⟨hi.pool, ?_, ?_, hi.buf, hi.file.append _, ?_, hi.inoComm, hi.diskIno, hi.wr, ?_, hi.comm⟩
+    · refine hi.mem.congr (fun j => ?_)
+      rw [memHolders_append_reader]; simp [Reader.holdsMem]
+    · refine hi.fd.congr (fun j => ?_)
+      rw [fdHolders_append]; simp [Reader.holdsFd]
+    · refine hi.fileIno.of_same (fun f fo hf => ?_) pub_same
+      rw [append_some_iff] at hf
+      rcases hf with hf | ⟨_, rfl⟩
+      · exact Or.inl ⟨fo, hf, rfl, rfl⟩
+      · exact Or.inr ⟨ino, hino, hst⟩
+    · refine hi.rd.append ?_ rcs_same_kv rcs_same_kv (fun _ _ _ _ h _ => append_get_old h)
+      simp only [RdOk]
+      exact ⟨_, append_get_new, rfl, rfl, rfl⟩
+  · simp at h
+
+/-! ### getMem / getFd -/
+
+theorem no_new_of_len {l l' : LRU} (hlen : l'.rcs.length = l.rcs.length) {P : Nat → RC → Prop} :
+    ∀ (i : Nat) (r' : RC), l.rcs.length ≤ i → l'.rcs[i]? = some r' → r'.alive → P i r' := by
+  intro i r' hle hr'
+  have := lt_of_get_some hr'
+  omega
+
+theorem Inv.getMem {s s' : State} {k : Nat} {o : Opts} (hi : Inv s) (h : s.getMem k o = some s') : Inv s' := by
+  unfold State.getMem at h
+  split at h
+  · simp at h
+  · split at h
+    · rename_i m id hg
+      split at h
+      · rename_i r hr
+        simp only [Option.some.injEq] at h; subst h
+        obtain ⟨h1, h2, h3, r0, r', g1, g2, g3, g4, g5, g6, g7, _⟩ :=
+          LRU.get_spec (h' := memHolders (s.readers ++ [{ key := k, src := .mem r.val id, phase := .opened }]) s.writers)
+            hi.mem hg
+            (by rw [memHolders_append_reader]; simp [Reader.holdsMem])
+            (fun j hj => by
+              rw [memHolders_append_reader]
+              have : (id == j) = false := by simp; exact fun h => hj h.symm
+              simp [Reader.holdsMem, this])
+        rw [hr] at g2; simp at g2; subst g2
+        refine ⟨hi.pool, h1, ?_, ?_, hi.file, hi.fileIno, hi.inoComm, hi.diskIno, ?_, ?_, hi.comm⟩
+        · refine hi.fd.congr (fun j => ?_)
+          rw [fdHolders_append]; simp [Reader.holdsFd]
+        · exact hi.buf.eff h2 (no_new_of_len h3)
+        · exact hi.wr.frame (fun _ _ _ h _ => h) (fun _ _ _ h _ => h) h2.rcs_key (CmLe.refl _)
+        · refine hi.rd.append ?_ h2.rcs_keyval rcs_same_kv (fun _ _ _ _ h _ => h)
+          simp only [RdOk]
+          exact ⟨r, hr, rfl, by rw [g7, g3]⟩
+      · simp at h
+    · simp at h
+
+theorem Inv.getFd {s s' : State} {k : Nat} {o : Opts} (hi : Inv s) (h : s.getFd k o = some s') : Inv s' := by
+  unfold State.getFd at h
+  split at h
+  · simp at h
+  · split at h
+    · rename_i m id hg
+      split at h
+      · rename_i r hr
+        simp only [Option.some.injEq] at h; subst h
+        obtain ⟨h1, h2, h3, r0, r', g1, g2, g3, g4, g5, g6, g7, _⟩ :=
+          LRU.get_spec (h' := fdHolders (s.readers ++ [{ key := k, src := .fdc r.val id, phase := .opened }]))
+            hi.fd hg
+            (by rw [fdHolders_append]; simp [Reader.holdsFd])
+            (fun j hj => by
+              rw [fdHolders_append]
+              have : (id == j) = false := by simp; exact fun h => hj h.symm
+              simp [Reader.holdsFd, this])
+        rw [hr] at g2; simp at g2; subst g2
+        refine ⟨hi.pool, ?_, h1, hi.buf, ?_, ?_, hi.inoComm, hi.diskIno, hi.wr, ?_, hi.comm⟩
+        · refine hi.mem.congr (fun j => ?_)
+          rw [memHolders_append_reader]; simp [Reader.holdsMem]
+        · exact hi.file.eff h2 (no_new_of_len h3)
+        · exact hi.fileIno
+        · refine hi.rd.append ?_ rcs_same_kv h2.rcs_keyval (fun _ _ _ _ h _ => h)
+          simp only [RdOk]
+          exact ⟨r, hr, rfl, by rw [g7, g3]⟩
+      · simp at h
+    · simp at h
+
+/-! ### closeReader / closeReaderDone -/
+
+theorem FileIno.evict {files : List FileObj} {inodes : List Inode} (h : FileIno files inodes) (f : Option Nat) :
+    FileIno (evictFile files f) inodes :=
+  h.of_same (fun f' fo' hf => Or.inl (evictFile_same f' fo' hf)) pub_same
+
+theorem Inv.closeReader {s s' : State} {r : Nat} (hi : Inv s) (h : s.closeReader r = some s') : Inv s' := by
+  unfold State.closeReader at h
+  split at h
+  · rename_i rd hrd
+    split at h
+    · rename_i hopen
+      have hok := hi.rd r rd hrd
+      simp only [RdOk, hopen] at hok
+      split at h
+      · -- memory reader: done()
+        rename_i b rc hsrc
+        simp only [hsrc] at hok
+        simp only [Option.some.injEq] at h; subst h
+        have hold : Reader.holdsMem rc rd = true := by simp [Reader.holdsMem, hopen, hsrc]
+        have hheld : 1 ≤ memHolders s.readers s.writers rc := by
+          have := countP_pos_of_get (p := Reader.holdsMem rc) hrd hold
+          simp only [memHolders]; omega
+        obtain ⟨h1, h2, h3, _⟩ := LRU.dec_spec (h' := memHolders (setRPhase s.readers r rd .closed) s.writers)
+          hi.mem hheld
+          (by
+            have := memHolders_set_reader s.writers { rd with phase := .closed } rc hrd
+            rw [hold] at this
+            have h2 : Reader.holdsMem rc { rd with phase := .closed } = false := by simp [Reader.holdsMem]
+            rw [h2] at this
+            simpa [setRPhase] using this)
+          (fun j hj => by
+            have := memHolders_set_reader s.writers { rd with phase := .closed } j hrd
+            have h1 : Reader.holdsMem j rd = false := by
+              simp [Reader.holdsMem, hopen, hsrc]; exact fun h => hj h.symm
+            have h2 : Reader.holdsMem j { rd with phase := .closed } = false := by simp [Reader.holdsMem]
+            rw [h1, h2] at this
+            simpa [setRPhase] using this)
+        refine ⟨hi.pool.evict _, h1, ?_, hi.buf.eff h2 (no_new_of_len h3), hi.file, hi.fileIno, hi.inoComm,
+          hi.diskIno, ?_, ?_, hi.comm⟩
+        · refine hi.fd.congr (fdHolders_set_same hrd (fun j => ?_))
+          simp [Reader.holdsFd, hopen, hsrc]
+        · exact hi.wr.frame (evictBuf_frame hi.buf h2) (fun _ _ _ h _ => h) h2.rcs_key (CmLe.refl _)
+        · exact hi.rd.set (by simp [RdOk]) h2.rcs_keyval rcs_same_kv (fun _ _ _ _ h _ => h)
+      · -- descriptor-cache reader: done()
+        rename_i f rc hsrc
+        simp only [hsrc] at hok
+        simp only [Option.some.injEq] at h; subst h
+        have hold : Reader.holdsFd rc rd = true := by simp [Reader.holdsFd, hopen, hsrc]
+        have hheld : 1 ≤ fdHolders s.readers rc := countP_pos_of_get (p := Reader.holdsFd rc) hrd hold
+        obtain ⟨h1, h2, h3, _⟩ := LRU.dec_spec (h' := fdHolders (setRPhase s.readers r rd .closed))
+          hi.fd hheld
+          (by
+            have := fdHolders_set { rd with phase := .closed } rc hrd
+            rw [hold] at this
+            have h2 : Reader.holdsFd rc { rd with phase := .closed } = false := by simp [Reader.holdsFd]
+            rw [h2] at this
+            simpa [setRPhase] using this)
+          (fun j hj => by
+            have := fdHolders_set { rd with phase := .closed } j hrd
+            have h1 : Reader.holdsFd j rd = false := by
+              simp [Reader.holdsFd, hopen, hsrc]; exact fun h => hj h.symm
+            have h2 : Reader.holdsFd j { rd with phase := .closed } = false := by simp [Reader.holdsFd]
+            rw [h1, h2] at this
+            simpa [setRPhase] using this)
+        refine ⟨hi.pool, ?_, h1, hi.buf, hi.file.eff h2 (no_new_of_len h3), hi.fileIno.evict _, hi.inoComm,
+          hi.diskIno, hi.wr, ?_, hi.comm⟩
+        · refine hi.mem.congr (memHolders_set_reader_same hrd (fun j => ?_))
+          simp [Reader.holdsMem, hopen, hsrc]
+        · exact hi.rd.set (by simp [RdOk]) rcs_same_kv h2.rcs_keyval (fun r' _ => evictFile_frame hi.file h2 r')
+      · -- direct reader: file.Close()
+        rename_i f hsrc
+        simp only [hsrc] at hok
+        obtain ⟨fo, hfo, hown, _, _⟩ := hok
+        simp only [Option.some.injEq] at h; subst h
+        simp only [evictFile, hfo]
+        refine ⟨hi.pool, ?_, ?_, hi.buf, hi.file.set_noncached hfo (by rw [hown]; intro i hc; cases hc) _, ?_,
+          hi.inoComm, hi.diskIno, hi.wr, ?_, hi.comm⟩
+        · refine hi.mem.congr (memHolders_set_reader_same hrd (fun j => ?_))
+          simp [Reader.holdsMem, hopen, hsrc]
+        · refine hi.fd.congr (fdHolders_set_same hrd (fun j => ?_))
+          simp [Reader.holdsFd, hopen, hsrc]
+        · have := hi.fileIno.evict (some f)
+          simpa [evictFile, hfo] using this
+        · exact hi.rd.set (by simp [RdOk]) rcs_same_kv rcs_same_kv
+            (fun r' hne => files_set_frame _ hfo (by rw [hown]; intro hc; cases hc; exact hne rfl))
+      · -- freshly opened file: fileCache.Add
+        rename_i f hsrc
+        simp only [hsrc] at hok
+        obtain ⟨fo, hfo, hown, hclosed, hkey⟩ := hok
+        simp only [hfo] at h
+        simp only [Option.some.injEq] at h; subst h
+        obtain ⟨l', id, added, fired, ha⟩ : ∃ l' id added fired, s.fd.add rd.key f = (l', id, added, fired) :=
+          ⟨_, _, _, _, rfl⟩
+        simp only [ha]
+        obtain ⟨h1, hspec⟩ := LRU.add_spec (h' := fdHolders (setRPhase s.readers r rd (.closing id)))
+          hi.fd ha
+          (by
+            have := fdHolders_set { rd with phase := .closing id } id hrd
+            have h1 : Reader.holdsFd id rd = false := by simp [Reader.holdsFd, hopen, hsrc]
+            have h2 : Reader.holdsFd id { rd with phase := .closing id } = true := by simp [Reader.holdsFd]
+            rw [h1, h2] at this
+            simpa [setRPhase] using this)
+          (fun j hj => by
+            have := fdHolders_set { rd with phase := .closing id } j hrd
+            have h1 : Reader.holdsFd j rd = false := by simp [Reader.holdsFd, hopen, hsrc]
+            have h2 : Reader.holdsFd j { rd with phase := .closing id } = false := by
+              simp [Reader.holdsFd]; exact fun h => hj h.symm
+            rw [h1, h2] at this
+            simpa [setRPhase] using this)
+        have hmem : s.mem.Inv (memHolders (setRPhase s.readers r rd (.closing id)) s.writers) := by
+          refine hi.mem.congr (memHolders_set_reader_same hrd (fun j => ?_))
+          simp [Reader.holdsMem, hopen, hsrc]
+        have hnc : ∀ i, fo.owner ≠ .cached i := by rw [hown]; intro i hc; cases hc
+        cases added with
+        | true =>
+          obtain ⟨_, hid, hlen, r', hr', hk', hv', hal'⟩ := hspec.fresh rfl
+          simp only [if_true]
+          have hf1 : FileInv s.fd.rcs (s.files.set f { fo with owner := .cached id }) :=
+            hi.file.set_noncached hfo hnc _
+          refine ⟨hi.pool, hmem, h1, hi.buf, ?_, ?_, hi.inoComm, hi.diskIno, hi.wr, ?_, hi.comm⟩
+          · refine hf1.eff hspec.eff ?_
+            intro i ri hle hri hali
+            have hlt : i < l'.rcs.length := lt_of_get_some hri
+            have : i = id := by omega
+            subst this
+            rw [hr'] at hri; simp at hri; subst hri
+            exact ⟨{ fo with owner := .cached i }, by rw [hv']; exact set_get_self (lt_of_get_some hfo), rfl,
+              hclosed, by rw [hk']; exact hkey⟩
+          · refine (hi.fileIno.of_same (files' := s.files.set f { fo with owner := .cached id }) ?_ pub_same).evict _
+            intro f' fo' hf'
+            rw [set_some_iff] at hf'
+            rcases hf' with ⟨rfl, _, rfl⟩ | ⟨_, hf'⟩
+            · exact Or.inl ⟨fo, hfo, rfl, rfl⟩
+            · exact Or.inl ⟨fo', hf', rfl, rfl⟩
+          · refine hi.rd.set ?_ rcs_same_kv hspec.eff.rcs_keyval ?_
+            · simp only [RdOk]; exact ⟨r', hr'⟩
+            · intro r0 hne f0 fo0 hf0 ho0
+              exact evictFile_frame hf1 hspec.eff r0 f0 fo0
+                (files_set_frame _ hfo (by rw [hown]; intro hc; cases hc; exact hne rfl) f0 fo0 hf0 ho0) ho0
+        | false =>
+          obtain ⟨hfired, hlen, _, r0, r', hr0, hr', _⟩ := hspec.existing rfl
+          subst hfired
+          simp only [Bool.false_eq_true, if_false]
+          have hf1 : FileInv l'.rcs s.files := hi.file.eff hspec.eff (no_new_of_len hlen)
+          refine ⟨hi.pool, hmem, h1, hi.buf, hf1.set_noncached hfo hnc _, ?_, hi.inoComm, hi.diskIno, hi.wr, ?_,
+            hi.comm⟩
+          · have := hi.fileIno.evict (some f)
+            simpa [evictFile, hfo] using this
+          · refine hi.rd.set ?_ rcs_same_kv hspec.eff.rcs_keyval
+              (fun r0 hne => files_set_frame _ hfo (by rw [hown]; intro hc; cases hc; exact hne rfl))
+            simp only [RdOk]; exact ⟨r', hr'⟩
+    · simp at h
+  · simp at h
+
+theorem Inv.closeReaderDone {s s' : State} {r : Nat} (hi : Inv s) (h : s.closeReaderDone r = some s') :
+    Inv s' := by
+  unfold State.closeReaderDone at h
+  split at h
+  · rename_i rd hrd
+    split at h
+    · rename_i rc hph
+      simp only [Option.some.injEq] at h; subst h
+      have hold : Reader.holdsFd rc rd = true := by simp [Reader.holdsFd, hph]
+      have hheld : 1 ≤ fdHolders s.readers rc := countP_pos_of_get (p := Reader.holdsFd rc) hrd hold
+      obtain ⟨h1, h2, h3, _⟩ := LRU.dec_spec (h' := fdHolders (setRPhase s.readers r rd .closed))
+        hi.fd hheld
+        (by
+          have := fdHolders_set { rd with phase := .closed } rc hrd
+          rw [hold] at this
+          have h2 : Reader.holdsFd rc { rd with phase := .closed } = false := by simp [Reader.holdsFd]
+          rw [h2] at this
+          simpa [setRPhase] using this)
+        (fun j hj => by
+          have := fdHolders_set { rd with phase := .closed } j hrd
+          have h1 : Reader.holdsFd j rd = false := by
+            simp [Reader.holdsFd, hph]; exact fun h => hj h.symm
+          have h2 : Reader.holdsFd j { rd with phase := .closed } = false := by simp [Reader.holdsFd]
+          rw [h1, h2] at this
+          simpa [setRPhase] using this)
+      refine ⟨hi.pool, ?_, h1, hi.buf, hi.file.eff h2 (no_new_of_len h3), hi.fileIno.evict _, hi.inoComm,
+        hi.diskIno, hi.wr, ?_, hi.comm⟩
+      · refine hi.mem.congr (memHolders_set_reader_same hrd (fun j => ?_))
+        simp [Reader.holdsMem, hph]
+      · exact hi.rd.set (by simp [RdOk]) rcs_same_kv h2.rcs_keyval (fun r' _ => evictFile_frame hi.file h2 r')
+    · simp at h
+  · simp at h
 
 end SV.ChunkCache
